@@ -2,6 +2,7 @@ import FrappyProofs.Lemmas.CommReply
 import FrappyProofs.Lemmas.CommVisible
 import FrappyProofs.Lemmas.CommRate
 import FrappyProofs.Lemmas.CommBook
+import FrappyProofs.Lemmas.CommTimeout
 import FrappyModel.Generated.C16
 /-
 C16 — property theorems (nothing but property theorems and their non-vacuity examples).
@@ -469,6 +470,61 @@ theorem delays_honoured_return (cfg : Cfg) (cbs : List Nat) (evs : List TEv) (ha
       rw [← hreqs, hcount] at hg7
       simp only [Nat.add_sub_cancel] at hg7
       rw [hp't, htb]; omega
+
+/-- Fails within the time-out — for EVERY accepted run: a `recv` of caller `c` that ends empty (position u) belongs to
+the read loop started by `c`'s own last send (position p), and it ends no later than one `recv` period (`gran`) after
+the end of the time-out — or after the last byte-carrying `recv` of the loop, if the device kept talking — up to the
+clock slack.  After an empty `recv` past the time-out the loop is not continued (`mayRetry`), so this bounds the moment
+the time-out is detected.  (That the error is then RETURNED promptly is a matter of the scheduler, not of the model:
+`fails_within_timeout` monitor on the implementation.) -/
+theorem fails_within_timeout_run (cfg : Cfg) (cbs : List Nat) (evs : List TEv) (hacc : Accepted cfg cbs evs)
+    (c u : Nat) (hu : evAt evs u = some (.recv c .empty)) :
+    ∃ p conn n, LastSend (evs.take u) p c conn n ∧
+      timeAt evs u ≤ max (timeAt evs p + cfg.timeout + cfg.slack) (lastDataTime evs c p u) + cfg.gran + cfg.slack := by
+  unfold Accepted at hacc
+  cases hex : exec { cfg := cfg, cbsReg := cbs } evs with
+  | none => simp [hex] at hacc
+  | some sf =>
+    have hult : u < evs.length := by
+      false_or_by_contra; rename_i hn
+      rw [evAt_none evs u (by omega)] at hu; simp at hu
+    obtain ⟨eu, heu⟩ : ∃ eu, evs[u]? = some eu := ⟨evs[u], by simp [hult]⟩
+    have hv : eu.ev = .recv c .empty := by simpa [evAt, heu] using hu
+    obtain ⟨sk, sk', hpre, hst⟩ := exec_cut _ evs u eu heu sf hex
+    have hr := rinv_exec cfg cbs (evs.take u) sk hpre
+    have he := einv_exec cfg cbs (evs.take u) sk hpre
+    have ht := tinv_exec cfg cbs (evs.take u) sk hpre
+    have hlen : (evs.take u).length = u := by simp; omega
+    have htu : timeAt evs u = eu.t := by simp [timeAt, heu]
+    rw [step_caller_form sk eu c (by rw [hv]; rfl)] at hst
+    split at hst
+    · simp at hst
+    · rw [hv] at hst
+      have hrd := step_recv_empty_pc _ sk' eu.t c c hst
+      simp only at hrd
+      obtain ⟨p, conn, n, hls, _⟩ := hr.r c hrd
+      obtain ⟨h1, h2, h3⟩ := he.e c hrd p conn n hls
+      have hpl := lastSend_lt hls
+      rw [hlen] at hpl
+      refine ⟨p, conn, n, hls, ?_⟩
+      rcases step_read_time _ sk' eu.t c _ hst hrd with ⟨_, _, hcase⟩ | hne
+      · rcases hcase with ⟨_, hg, hm, _, _⟩ | ⟨⟨x, d, hx⟩, _⟩
+        · simp only at hg hm
+          rw [ht.cfg_eq] at hg hm
+          have hb := mayRetry_lastT hm h2 h3
+          unfold waitBound at hb
+          rw [hlen, lastDataTime_take, h1, timeAt_take evs u p hpl] at hb
+          rw [htu]
+          have : timeAt evs p + cfg.timeout + cfg.slack = timeAt evs p + cfg.timeout + cfg.slack := rfl
+          omega
+        · simp at hx
+      · -- an empty recv keeps the caller in the loop
+        exfalso
+        have := hst
+        simp only [stepCaller, hrd] at this
+        split at this
+        · simp only [Option.some.injEq] at this; subst this; simp at hne
+        · simp at this
 
 /-- stale data discarded, step level: a `send` is accepted only from the drain state, when everything that had
 arrived on the connection has been read away and the device has not closed; the receive buffer is emptied -/
